@@ -15,7 +15,17 @@ later call the parameter tree equals the assigned values, and every later sample
 `_reentrant` repeats it with a reset function that is re-entrant: consulted for one sample, it calls partial_fit /
 predict on the estimator being trained (bare modules, FusionART, DualVigilanceART, TopoART; nested up to two deep,
 before and after its own vetoes have moved the vigilance).  Each of those calls, outer and nested, must hand back the
-parameter values that were in force when it started."""
+parameter values that were in force when it started.
+
+`_noncanonical` repeats it on hyper-parameter VALUES that are legal but not canonical: a BayesianART `cov_init` that is
+symmetric only up to round-off (a weighted Gram matrix, a Gram matrix summed in two orders, one entry moved by an ulp)
+or deliberately asymmetric, float32 / integer / Fortran-ordered / strided / read-only `cov_init` and `sigma_init`
+arrays, numpy-scalar floats, ndarray / float32 `gamma_values`, tuple / ndarray `channel_dims`, ndarray vigilance
+ladders -- for the estimator alone and nested in every host that accepts it, with modules trained before they are
+wrapped and array hyper-parameters re-configured between calls.  The snapshot is strict: public
+`get_params(deep=True)` plus the `params` of every nested module, arrays compared bit for bit with dtype and shape,
+scalars with their Python type.  (Identity of the array objects is NOT demanded: the library restores `params` from
+a deep copy after every search -- the mechanism the property names -- so equal bits in a new array are no change.)"""
 from __future__ import annotations
 
 import copy
@@ -24,6 +34,7 @@ import math
 import numpy as np
 
 from .. import gen, families, specs
+from .. import impl as _impl
 from ..impl import quiet, exc_enum, params_tree, eq_snap, make, Recorder, MODES
 
 RULE = ("cases = (family, hyper-parameters incl. nested modules, stream with labels, mode, epsilon, history of "
@@ -33,7 +44,11 @@ RULE = ("cases = (family, hyper-parameters incl. nested modules, stream with lab
         "hyper-parameters held as numpy scalars and/or re-assigned by attribute assignment between two calls "
         "(non-trivial when a value was re-assigned and training continued, or a threshold moved during a search); the same "
         "with a re-entrant reset function that trains / queries the estimator being trained from inside a search "
-        "(non-trivial when it re-entered after its own vetoes had moved a threshold by match tracking)")
+        "(non-trivial when it re-entered after its own vetoes had moved a threshold by match tracking); the same with "
+        "legal but non-canonical hyper-parameter values (cov_init symmetric only to round-off / asymmetric, float32 / "
+        "integer / strided / read-only arrays, numpy scalars, ndarray ladders), alone and nested in every host, strict "
+        "bit-for-bit snapshots of get_params(deep=True) and of every nested params dict around every call "
+        "(non-trivial when a training call on a non-canonical configuration returned)")
 
 
 def prepare(ctx):
@@ -164,6 +179,7 @@ def run(ctx):
         cov.traces += 1
     _reconfigured(ctx)
     _reentrant(ctx)
+    _noncanonical(ctx)
 
 
 # ---------------------------------------------------------------------------------------------------------------
@@ -508,3 +524,481 @@ def _reconfigured(ctx):
             cov.hit(f"reconf-history:{variant}:{'reset-function' if use_reset else 'labels' if name not in bare else 'plain'}")
         cov.case(("reconf", name, fam.spec, desc["rows"], mode, eps, variant, str(desc["history"])),
                  (assigned > 0 and ncalls >= 2) or state["moved"])
+
+
+# ---------------------------------------------------------------------------------------------------------------
+# legal but non-canonical hyper-parameter values; strict (bit-for-bit, dtype, Python type) snapshots
+
+
+def _leaf(v):
+    """strict record of one hyper-parameter value: arrays by dtype, shape and bytes; scalars by Python type and exact
+    value; containers element-wise with their type; nested estimators and anything else by type and identity"""
+    if isinstance(v, np.ndarray):
+        return ("ndarray", v.dtype.str, tuple(v.shape), v.tobytes())
+    if isinstance(v, (bool, np.bool_)):
+        return ("scalar", type(v).__name__, repr(bool(v)))
+    if isinstance(v, (float, np.floating)):
+        return ("scalar", type(v).__name__, np.asarray(v).tobytes().hex())
+    if isinstance(v, (int, np.integer, str)) or v is None:
+        return ("scalar", type(v).__name__, repr(v))
+    if isinstance(v, (list, tuple)):
+        return (type(v).__name__, tuple(_leaf(t) for t in v))
+    if isinstance(v, dict):
+        return ("dict", tuple(sorted((repr(k), _leaf(t)) for k, t in v.items())))
+    return ("object", type(v).__name__, id(v))
+
+
+def _show_leaf(rec):
+    if rec is None:
+        return "<absent>"
+    if rec[0] == "ndarray":
+        a = np.frombuffer(rec[3], dtype=np.dtype(rec[1])).reshape(rec[2])
+        shown = [float(t).hex() for t in a.reshape(-1)] if a.dtype.kind == "f" else a.reshape(-1).tolist()
+        return f"ndarray(dtype={a.dtype.name}, shape={list(rec[2])}, entries={shown})"
+    if rec[0] == "scalar":
+        return f"{rec[1]}:{rec[2]}"
+    if rec[0] in ("list", "tuple"):
+        return f"{rec[0]}[" + ", ".join(_show_leaf(t) for t in rec[1]) + "]"
+    return str(rec[:2])
+
+
+def _param_modules(est, path="", seen=None):
+    """(path, object) of the estimator and every nested module, each object once"""
+    seen = set() if seen is None else seen
+    if id(est) in seen:
+        return []
+    seen.add(id(est))
+    d = getattr(est, "__dict__", {})
+    out = [(path or "self", est)]
+    for name in ("module_a", "module_b", "base_module", "fusion_art"):
+        if name in d and hasattr(d[name], "__dict__"):
+            out += _param_modules(d[name], f"{path}.{name}" if path else name, seen)
+    if isinstance(d.get("modules"), (list, tuple)):
+        for k, m in enumerate(d["modules"]):
+            out += _param_modules(m, f"{path}.modules[{k}]" if path else f"modules[{k}]", seen)
+    return out
+
+
+def _strict(est):
+    """({key: strict record}, {key: memory layout + identity of arrays}, references that keep the ids alive): the
+    public get_params(deep=True) of the estimator, the `params` dict of every nested module, and the constructor
+    arguments that hosts keep outside `params`"""
+    snap, layout, refs = {}, {}, []
+
+    def put(key, v):
+        snap[key] = _leaf(v)
+        refs.append(v)
+        if isinstance(v, np.ndarray):
+            layout[key] = (id(v), v.strides, bool(v.flags.writeable))
+
+    try:
+        with quiet():
+            gp = dict(est.get_params(deep=True))
+        for k, v in gp.items():
+            put(f"get_params()[{k!r}]", v)
+    except Exception as e:
+        snap["get_params()"] = ("raised", exc_enum(e))
+    for path, mod in _param_modules(est):
+        d = mod.__dict__
+        if isinstance(d.get("params"), dict):
+            for k, v in d["params"].items():
+                put(f"{path}.params[{k!r}]", v)
+        for name in ("rho_values", "channel_dims", "rho_lower_bound", "td_alpha", "td_lambda"):
+            if name in d:
+                put(f"{path}.{name}", d[name])
+    return snap, layout, refs
+
+
+def _strict_diff(before, after):
+    """[(key, leaf name, category, text)] for every entry whose strict record differs"""
+    out = []
+    for key in sorted(set(before) | set(after)):
+        b, a = before.get(key), after.get(key)
+        if b == a:
+            continue
+        leaf = key.rsplit("[", 1)[-1].strip("]'\"").rsplit("__", 1)[-1] if "[" in key else key.rsplit(".", 1)[-1]
+        if b is None or a is None:
+            cat = "entry-appeared" if b is None else "entry-vanished"
+        elif b[0] != a[0]:
+            cat = "type"
+        elif b[0] == "ndarray":
+            cat = "dtype" if b[1] != a[1] else "shape" if b[2] != a[2] else "value"
+        elif b[0] == "scalar":
+            cat = "type" if b[1] != a[1] else "value"
+        elif b[0] == "object":
+            cat = "object-replaced"
+        else:
+            cat = "value"
+        out.append((key, leaf, cat, f"{key}: configured {_show_leaf(b)}, now {_show_leaf(a)}"))
+    return out
+
+
+def _enc(a):
+    """JSON description of an array hyper-parameter (entries also as hex: the last bit matters)"""
+    return {"ndarray": a.tolist(), "dtype": a.dtype.name, "shape": list(a.shape),
+            "layout": "C" if a.flags.c_contiguous else "F" if a.flags.f_contiguous else "strided view",
+            "writeable": bool(a.flags.writeable),
+            "hex": [float(t).hex() for t in a.reshape(-1)] if a.dtype.kind == "f" else None}
+
+
+def _enc_kw(kw):
+    return {k: (_enc(v) if isinstance(v, np.ndarray) else
+                {"value": float(v), "type": type(v).__name__} if isinstance(v, np.floating) else
+                [float(t) if isinstance(t, (float, np.floating)) else int(t) for t in v] + [f"<{type(v).__name__}>"]
+                if isinstance(v, (list, tuple)) else v) for k, v in kw.items()}
+
+
+def _relayout(r, a, tags):
+    """the same values in another legal memory layout / access mode"""
+    how = r.choice(["C", "C", "C", "F", "strided", "read-only"])
+    if how == "F" and a.ndim == 2:
+        a = np.asfortranarray(a)
+        tags.append("layout:fortran-order")
+    elif how == "strided":
+        big = np.zeros(tuple(2 * t for t in a.shape), dtype=a.dtype)
+        view = big[tuple(slice(None, None, 2) for _ in a.shape)]
+        view[...] = a
+        a = view
+        tags.append("layout:strided-view")
+    elif how == "read-only":
+        a = a.copy()
+        a.setflags(write=False)
+        tags.append("layout:read-only")
+    return a
+
+
+def _cov_init(r, d, tags, force=None):
+    """an initial covariance as a caller would really obtain one: a (weighted) Gram matrix of a few observations plus a
+    ridge.  Recipes: `gram` (A.T @ A: exactly symmetric), `weighted-gram` ((A.T * w) @ A: symmetric to round-off),
+    `two-orders` (upper triangle summed forwards, lower backwards), `ulp` (one off-diagonal entry moved by one unit in
+    the last place), `skew` (deliberately asymmetric: a skew-symmetric part is added; x'Cx is unchanged), `float32`,
+    `float32-ulp`, `int-eye` (integer identity)"""
+    s = r.choice([0.0625, 0.25, 1.0])
+    m = d + r.randint(2, 5)
+    A = np.array([[r.uniform(-1.0, 1.0) for _ in range(d)] for _ in range(m)], dtype=float)
+    w = np.array([r.uniform(0.1, 1.0) for _ in range(m)], dtype=float)
+    G = A.T @ A
+    G = 0.5 * (G + G.T) / m * s + s * np.eye(d)
+    recipes = ["gram", "weighted-gram", "weighted-gram", "two-orders", "two-orders", "ulp", "ulp", "ulp", "skew", "skew",
+               "float32", "float32-ulp", "int-eye"]
+    if d == 1:
+        recipes = ["gram", "float32", "int-eye"]
+    recipe = force or r.choice(recipes)
+    if recipe == "gram":
+        C = G
+    elif recipe == "weighted-gram":
+        C = ((A.T * w) @ A) / w.sum() * s + s * np.eye(d)
+    elif recipe == "two-orders":
+        C = np.zeros((d, d))
+        for i in range(d):
+            for j in range(i, d):
+                terms = [float(A[k, i]) * float(A[k, j]) * float(w[k]) for k in range(m)]
+                up = 0.0
+                for t in terms:
+                    up += t
+                lo = 0.0
+                for t in reversed(terms):
+                    lo += t
+                C[i, j], C[j, i] = up, lo
+        C = C / w.sum() * s + s * np.eye(d)
+    elif recipe in ("ulp", "float32-ulp"):
+        C = G.copy() if recipe == "ulp" else G.astype(np.float32)
+        i, j = r.sample(range(d), 2)
+        C[i, j] = np.nextafter(C[i, j], C.dtype.type(r.choice([-np.inf, np.inf])))
+    elif recipe == "skew":
+        t = r.choice([2.0 ** -40, 2.0 ** -10, 0.125]) * s
+        K = np.zeros((d, d))
+        for i in range(d):
+            for j in range(i + 1, d):
+                K[i, j] = r.choice([-1.0, 1.0])
+                K[j, i] = -K[i, j]
+        C = G + t * K
+    elif recipe == "float32":
+        C = G.astype(np.float32)
+    else:
+        C = np.eye(d, dtype=np.int64)
+    tags.append(f"cov_init:{recipe}")
+    sym = "exactly-symmetric" if np.array_equal(C, C.T) else \
+        "symmetric-to-round-off" if np.allclose(C, C.T, rtol=8 * float(np.finfo(C.dtype).eps), atol=0.0) else "asymmetric"
+    tags.append(f"cov_init:{sym}")
+    if C.dtype != np.float64:
+        tags.append(f"dtype:{C.dtype.name}")
+    return _relayout(r, C, tags)
+
+
+def _sigma_init(r, d, tags):
+    kind = r.choice(["float64", "float32", "int", "float64"])
+    if kind == "int":
+        a = np.ones(d, dtype=np.int64)
+    else:
+        a = np.array([r.choice([0.25, 0.5, 1.0, 0.3, 0.7]) for _ in range(d)], dtype=np.float32 if kind == "float32" else float)
+    if a.dtype != np.float64:
+        tags.append(f"dtype:{a.dtype.name}")
+    return _relayout(r, a, tags)
+
+
+def _fl(r, v, tags):
+    """the float as given, or the same value as a numpy scalar (np.float64 is a float subclass), or -- rarely, for an
+    integral value -- as a Python int (the elementary modules' validate_params reject that today; were it accepted, a
+    training call would have to hand back the int)"""
+    t = r.random()
+    if t < 0.4:
+        tags.append("numpy-scalar")
+        return np.float64(v)
+    if t < 0.46 and float(v) == int(v):
+        tags.append("integer-typed-scalar")
+        return int(v)
+    return v
+
+
+def _inner_kwargs(r, kind, d, tags):
+    if kind == "BayesianART":
+        return {"rho": _fl(r, r.choice([2.0 ** -12, 2.0 ** -6, 0.0625, 0.5, 2.0]), tags), "cov_init": _cov_init(r, d, tags)}
+    if kind == "GaussianART":
+        return {"rho": _fl(r, r.choice([0.0, 0.25, 0.5, 0.75]), tags), "sigma_init": _sigma_init(r, d, tags),
+                "alpha": _fl(r, r.choice([1e-10, 2.0 ** -10]), tags)}
+    if kind == "FuzzyART":
+        return {"rho": _fl(r, r.choice([0.25, 0.5, 0.75, 0.875]), tags), "alpha": _fl(r, 2.0 ** -10, tags),
+                "beta": _fl(r, r.choice([1.0, 0.5]), tags)}
+    if kind == "HypersphereART":
+        return {"rho": _fl(r, r.choice([0.25, 0.5, 0.75]), tags), "alpha": _fl(r, 2.0 ** -10, tags),
+                "beta": _fl(r, r.choice([1.0, 0.5]), tags), "r_hat": _fl(r, r.choice([1.0, 2.0]), tags)}
+    raise KeyError(kind)
+
+
+_NC_HOSTS = ["alone", "SimpleARTMAP", "ARTMAP", "DeepARTMAP-sup", "DeepARTMAP-unsup", "SMART", "FusionART",
+             "DualVigilanceART", "TopoART", "CVIART", "SimpleARTMAP(FusionART)", "alone", "SimpleARTMAP"]
+
+
+def _noncanonical(ctx):
+    """Oracle (implementation alone): the strict snapshot taken immediately before a fit / partial_fit / predict call
+    equals the one taken immediately after it returned, for every call of the history, on the estimator the caller
+    holds (host and nested modules alike)."""
+    cov = ctx.cov
+    A = _impl.artlib
+    K = ctx.scale(300, 5000)
+    nmax = ctx.scale(10, 30)
+    for i in range(K):
+        r = gen.rng_for(ctx.seed, "C07-noncanonical", i)
+        host = _NC_HOSTS[i % len(_NC_HOSTS)]
+        mode = MODES[(i // len(_NC_HOSTS)) % 5]
+        eps = r.choice([0.0, 2.0 ** -20, 1e-9, 2.0 ** -10, 0.125])
+        if host == "TopoART":
+            kind = r.choice(["FuzzyART", "HypersphereART"])         # TopoART needs a module with `beta`
+        else:
+            kind = r.choice(["BayesianART"] * 6 + ["GaussianART"] * 3 + ["FuzzyART", "HypersphereART"])
+        d = r.choice([2, 2, 3]) if kind == "BayesianART" and r.random() < 0.9 else r.randint(1, 3)
+        n = r.randint(2, min(nmax, 10) if host == "CVIART" else nmax)
+        tags = []
+        kw = _inner_kwargs(r, kind, d, tags)
+        X = specs.elem_data(r, kind, n, d)
+        y = gen.labels(r, n, r.randint(1, 3))
+        desc = {"host": host, "module": {"cls": kind, **_enc_kw(kw)}, "mode": mode, "eps": eps, "history": []}
+        cls = getattr(A, kind)
+
+        def fz():
+            return A.FuzzyART(rho=r.choice([0.0, 0.5, 0.75]), alpha=2.0 ** -10, beta=1.0)
+
+        def fusion_args(mods_dims):
+            g = r.choice([[0.5, 0.5], [0.25, 0.75], np.array([0.5, 0.5]), np.array([0.25, 0.75]),
+                          np.array([0.5, 0.5], dtype=np.float32), [np.float64(0.75), np.float64(0.25)]])
+            dims = r.choice([list, tuple, np.array])(mods_dims)
+            if not (isinstance(g, list) and all(type(t) is float for t in g)):
+                tags.append("gamma_values:" + (f"ndarray-{g.dtype.name}" if isinstance(g, np.ndarray) else "numpy-scalars"))
+            if not isinstance(dims, list):
+                tags.append("channel_dims:" + type(dims).__name__)
+            desc["fusion"] = _enc_kw({"gamma_values": g, "channel_dims": dims})
+            return g, dims
+
+        inner_mods = []
+        pre = None
+        try:
+            with quiet():
+                if host == "SMART":
+                    k = r.randint(2, 3)
+                    base = float(kw["rho"])
+                    if kind == "BayesianART":
+                        ladder = [base * 2.0 ** (k - 1 - t) for t in range(k)]
+                    else:
+                        ladder = sorted(r.sample([0.125, 0.25, 0.375, 0.5, 0.625, 0.75, 0.875], k))
+                    form = r.choice(["list", "ndarray", "numpy-scalars"])
+                    rv = ladder if form == "list" else np.asarray(ladder) if form == "ndarray" else [np.float64(t) for t in ladder]
+                    if form != "list":
+                        tags.append("rho_values:" + form)
+                    desc["smart"] = {"rho_values": ladder, "given_as": form}
+                    est = A.SMART(cls, rv, {k_: v for k_, v in kw.items() if k_ != "rho"})
+                    inner_mods = list(est.modules)
+                else:
+                    mod = cls(**kw)
+                    inner_mods = [mod]
+                    if host not in ("alone",) and r.random() < 0.25:
+                        # lifecycle: the module is trained on its own before it is wrapped
+                        pre = r.randint(1, max(1, n // 2))
+        except Exception as e:
+            cov.hit(f"non-canonical:construction-rejected:{host}:{kind}:{exc_enum(e)}")
+            continue
+        Xf = X
+        width = X.shape[1]
+        second = gen.cc(gen.grid_rows(r, n, 1, style="coarse"))
+        failed = False
+
+        def check_call(obj, label, op, call, slice_):
+            """run one call of the history with a strict snapshot before and after it"""
+            nonlocal failed
+            sb, lb, refs_b = _strict(obj)
+            try:
+                with quiet():
+                    call()
+            except Exception as e:
+                cov.hit(f"non-canonical:{op}-raised:{label}:{kind}:{exc_enum(e)}")
+                return False
+            sa, la, refs_a = _strict(obj)
+            diffs = _strict_diff(sb, sa)
+            if diffs:
+                key, leaf, cat, _ = diffs[0]
+                ctx.issue("violation", f"{label}[{kind}].{op}:{leaf}:{cat}-changed:non-canonical-hyper-parameters",
+                          f"{op} changed hyper-parameters (configuration: {', '.join(sorted(set(tags)))}; mode {mode}, eps {eps}): "
+                          + "; ".join(t[3] for t in diffs[:6]),
+                          dict(desc, failing_call={"op": op, "rows_slice": slice_, "on": label},
+                               changed=[{"entry": t[0], "category": t[2]} for t in diffs]))
+                failed = True
+                return True
+            cov.hit(f"non-canonical:call-checked:{op}")
+            if any(lb[k_][0] != la[k_][0] for k_ in lb if k_ in la):
+                cov.hit("non-canonical:equal-bits-in-a-new-array-object(deep-copy-restore)")
+            if any(lb[k_][1:] != la[k_][1:] for k_ in lb if k_ in la):
+                cov.hit("non-canonical:memory-layout-or-write-flag-not-kept(values-equal)")
+            return True
+
+        if pre is not None:
+            desc["module_trained_before_being_wrapped"] = {"rows_slice": [0, pre]}
+            ok = check_call(inner_mods[0], "alone(before-wrapping)", "partial_fit",
+                            lambda: inner_mods[0].partial_fit(X[:pre]), [0, pre])
+            if ok and not failed:
+                cov.hit("non-canonical:module-trained-before-being-wrapped")
+            if failed:
+                cov.case(("noncanonical", i, host, kind, str(desc["module"])), False)
+                continue
+        use_reset = False
+        try:
+            with quiet():
+                if host == "alone":
+                    est = inner_mods[0]
+                elif host == "SimpleARTMAP":
+                    est = A.SimpleARTMAP(inner_mods[0])
+                elif host == "ARTMAP":
+                    est = A.ARTMAP(inner_mods[0], fz())
+                elif host in ("DeepARTMAP-sup", "DeepARTMAP-unsup"):
+                    mods = [inner_mods[0], fz()] if r.random() < 0.6 else [fz(), inner_mods[0]]
+                    desc["deep_modules"] = [type(m).__name__ for m in mods]
+                    est = A.DeepARTMAP(mods)
+                elif host == "FusionART":
+                    g, dims = fusion_args([width, 2])
+                    est = A.FusionART([inner_mods[0], fz()], gamma_values=g, channel_dims=dims)
+                    Xf = np.hstack([X, second])
+                elif host == "SimpleARTMAP(FusionART)":
+                    g, dims = fusion_args([width, 2])
+                    est = A.SimpleARTMAP(A.FusionART([inner_mods[0], fz()], gamma_values=g, channel_dims=dims))
+                    Xf = np.hstack([X, second])
+                elif host == "DualVigilanceART":
+                    rho = float(kw["rho"])
+                    lb_ = _fl(r, r.choice([rho / 2.0, rho / 4.0, 0.0]), tags)
+                    desc["rho_lower_bound"] = float(lb_)
+                    est = A.DualVigilanceART(inner_mods[0], lb_)
+                elif host == "TopoART":
+                    tau = r.randint(2, 6)
+                    bl = _fl(r, r.choice([b for b in [0.0, 0.25, 0.5] if b <= float(kw["beta"])]), tags)
+                    desc["topo"] = {"beta_lower": float(bl), "tau": tau, "phi": 1}
+                    est = A.TopoART(inner_mods[0], bl, tau, 1)
+                elif host == "CVIART":
+                    desc["validity"] = v_ = r.choice([1, 2, 3])
+                    est = A.CVIART(inner_mods[0], v_)
+        except Exception as e:
+            cov.hit(f"non-canonical:construction-rejected:{host}:{kind}:{exc_enum(e)}")
+            continue
+        desc["rows"] = {"X": Xf.tolist(), "y": y.tolist(), "second_channel": second.tolist()}
+        for t in sorted(set(tags)):
+            cov.hit(f"non-canonical:{t}")
+
+        # a vetoing reset function for the estimators that take one directly, so that match tracking really moves the
+        # vigilance and `params` really is restored from its deep copy
+        reset = None
+        if host in ("alone", "FusionART", "DualVigilanceART", "TopoART") and r.random() < 0.5:
+            vt = gen.veto_table(r, n, n + 2)
+            desc["veto"] = vt
+            stt = {"i": -1}
+            o_step = est.step_fit
+
+            def step(x, *a, _o=o_step, _s=stt, **kw_):
+                _s["i"] += 1
+                return _o(x, *a, **kw_)
+            object.__setattr__(est, "step_fit", step)
+
+            def reset(i_, w_, c_, params=None, cache=None, _s=stt, _vt=vt, _m=n + 2):
+                return not _vt[_s["i"] % len(_vt)][int(c_) % _m]
+            use_reset = True
+
+        def train_call(op, a, b):
+            f = est.partial_fit if op == "partial_fit" else est.fit
+            kw_ = dict(match_tracking=mode, epsilon=eps)
+            if use_reset:
+                kw_["match_reset_func"] = reset
+            if host in ("SimpleARTMAP", "SimpleARTMAP(FusionART)"):
+                return lambda: f(Xf[a:b], y[a:b], **kw_)
+            if host == "ARTMAP":
+                return lambda: f(Xf[a:b], second[a:b], **kw_)
+            if host.startswith("DeepARTMAP"):
+                Xs = [X[a:b] if type(m) is cls and m is inner_mods[0] else second[a:b] for m in est.modules]
+                return lambda: f(Xs, y[a:b] if host.endswith("-sup") else None, **kw_)
+            return lambda: f(Xf[a:b], **kw_)
+
+        def predict_call(a, b):
+            if host.startswith("DeepARTMAP"):
+                Xs = [X[a:b] if m is inner_mods[0] else second[a:b] for m in est.modules]
+                return lambda: est.predict(Xs)
+            return lambda: est.predict(Xf[a:b])
+
+        if r.random() < 0.1:
+            desc["history"].append({"call": "predict", "rows_slice": [0, 1], "note": "before any training"})
+            check_call(est, host, "predict", predict_call(0, 1), [0, 1])
+        parts = gen.compositions(r, n - (pre or 0)) if n - (pre or 0) > 0 else []
+        j = pre or 0
+        ncalls = 0
+        for ci, p in enumerate(parts):
+            if failed:
+                break
+            if ci > 0 and r.random() < 0.2 and kind in ("BayesianART", "GaussianART"):
+                # re-configuration of the array hyper-parameter between two calls (same shape, another legal value)
+                key = "cov_init" if kind == "BayesianART" else "sigma_init"
+                t2 = []
+                new = _cov_init(r, d, t2) if kind == "BayesianART" else _sigma_init(r, d, t2)
+                how = r.choice(["set_params", "attribute"])
+                try:
+                    with quiet():
+                        for m in inner_mods:
+                            if how == "set_params":
+                                m.set_params(**{key: new})
+                            else:
+                                setattr(m, key, new)
+                    if all(m.params[key] is new for m in inner_mods):
+                        desc["history"].append({"reconfigure": key, "by": how, "value": _enc(new)})
+                        tags += t2
+                        cov.hit(f"non-canonical:array-hyper-parameter-re-configured-between-calls:{how}")
+                except Exception as e:
+                    cov.hit(f"non-canonical:re-configuration-raised:{kind}:{exc_enum(e)}")
+            op = "fit" if (host == "CVIART" or r.random() < 0.3) else "partial_fit"
+            desc["history"].append({"call": op, "rows_slice": [j, j + p]})
+            if not check_call(est, host, op, train_call(op, j, j + p), [j, j + p]):
+                break
+            if failed:
+                break
+            ncalls += 1
+            if r.random() < 0.4:
+                desc["history"].append({"call": "predict", "rows_slice": [j, j + p]})
+                check_call(est, host, "predict", predict_call(j, j + p), [j, j + p])
+            j += p
+        canonical = not tags or set(tags) <= {"cov_init:gram", "cov_init:exactly-symmetric"}
+        if ncalls and not failed:
+            cov.hit(f"non-canonical-history:{host}:{kind}")
+        cov.case(("noncanonical", host, kind, str(desc["module"]), str(desc["rows"]), mode, eps, str(desc["history"])),
+                 ncalls >= 1 and not canonical)
